@@ -137,7 +137,7 @@ func c14Rules(tier string) []Rule {
 			if f == nil {
 				return []core.Result{core.Bad(id, "PROV", "PROV:"+reg+":reject-pred", "", "the taint-rejecting predicate of Registration.Reconcile cannot be resolved")}
 			}
-			if len(w.Sites(f, regexp.MustCompile(`^return \(\*corev1\.Taint\)\.MatchTaint\(.*, apis/v1\.UnregisteredNoExecuteTaint\)$`), false)) == 0 {
+			if len(w.SitesOr(f, regexp.MustCompile(`^return \(\*corev1\.Taint\)\.MatchTaint\(.*, apis/v1\.UnregisteredNoExecuteTaint\)$`), false, 1)) == 0 {
 				return []core.Result{core.Bad(id, "PROV", "PROV:"+reg+":reject-pred", w.Pos(f.Pos()), "the predicate no longer rejects exactly the karpenter.sh/unregistered taint")}
 			}
 			rs := core.InstrPresent(w, id, "PROV", reg, `^store \$2\.Status\.NodeName = utils/nodeclaim\.NodeForNodeClaim\(\$0\.kubeClient, \$2\)#0\.ObjectMeta\.Name$`, 1, "Status.NodeName is the name of the node found")
